@@ -302,6 +302,7 @@ class Walker:
         self.var_key = {}       # VarDecl id -> loc key
         self.refs = []          # (var decl id, classification tuple) resolved at the end (forward refs)
         self.dtors = {}         # loc key -> record
+        self.noexcept_fns = {}  # qualified name -> record (same shape as dtors)
         self.mutable_records = set()   # qualified record names that have a mutable field
         self.tls = []
         self.ucalls = set()
@@ -382,6 +383,8 @@ class Walker:
             self.fvirtual[n["id"]] = bool(n.get("virtual"))
             if kind == "CXXDestructorDecl":
                 self.on_dtor(n, q, here)
+            elif is_noexcept_type(self.ftype[n["id"]]):
+                self.on_noexcept_fn(n, q, here)
         elif kind == "FieldDecl":
             if n.get("mutable"):
                 self.mutable_records.add(self.qname(ctx))
@@ -703,6 +706,27 @@ class Walker:
             slot = "inst" if is_inst else "pattern"
             rec[slot] = (rec[slot] or set()) | callees
 
+    # ---- functions declared noexcept (other than destructors): an exception leaving them is std::terminate as well
+    def on_noexcept_fn(self, n, q, here):
+        if here is None or n.get("isImplicit") or n.get("explicitlyDefaulted"):
+            return
+        rel = repo_rel(here[0])
+        if rel is None:
+            return
+        parts = [c for c in n.get("inner", []) if isinstance(c, dict) and c.get("kind") in ("CompoundStmt", "CXXTryStmt", "CXXCtorInitializer")]
+        if not any(c.get("kind") in ("CompoundStmt", "CXXTryStmt") for c in parts):
+            return          # a declaration without body
+        callees = set()
+        for c in parts:
+            self.collect_callees(c, callees, False)
+        q = re.sub(r"<[^<>]*>$", "", q)
+        rec = self.noexcept_fns.get(q)
+        if rec is None:
+            rec = dict(name=q, file=rel, line=here[1], noexcept_false=False, pattern=None, inst=None, has_body=True)
+            self.noexcept_fns[q] = rec
+        slot = "inst" if self._in_instantiation else "pattern"
+        rec[slot] = (rec[slot] or set()) | callees
+
     def collect_callees(self, n, out, guarded):
         if not isinstance(n, dict):
             return
@@ -861,26 +885,30 @@ def analyse_tu(args):
         r["writes"] = sorted(r["writes"])
         r["types"] = sorted(r.get("types", []))
         statics.append(r)
-    dtors = []
-    for key, r in w.dtors.items():
-        use = r["inst"] if r["inst"] is not None else (r["pattern"] or set())
-        names = set()
-        for c, _ in use:
-            if isinstance(c, tuple):
-                _, cid, nm = c
-                q = w.qual.get(cid)
-                ft = w.ftype.get(cid)
-                if q is None:
-                    names.add("(external)::" + str(nm))
-                elif is_noexcept_type(ft):
-                    continue
+    def resolve(table):
+        out = []
+        for key, r in table.items():
+            use = r["inst"] if r["inst"] is not None else (r["pattern"] or set())
+            names = set()
+            for c, _ in use:
+                if isinstance(c, tuple):
+                    _, cid, nm = c
+                    q = w.qual.get(cid)
+                    ft = w.ftype.get(cid)
+                    if q is None:
+                        names.add("(external)::" + str(nm))
+                    elif is_noexcept_type(ft):
+                        continue
+                    else:
+                        names.add(q + (" [virtual]" if w.fvirtual.get(cid) else ""))
                 else:
-                    names.add(q + (" [virtual]" if w.fvirtual.get(cid) else ""))
-            else:
-                names.add(c)
-        dtors.append(dict(name=r["name"], file=r["file"], line=r["line"], noexcept_false=r["noexcept_false"],
-                          has_body=r["has_body"], callees=sorted(names),
-                          resolved_from="instantiation" if r["inst"] is not None else "pattern"))
+                    names.add(c)
+            out.append(dict(name=r["name"], file=r["file"], line=r["line"], noexcept_false=r["noexcept_false"],
+                            has_body=r["has_body"], callees=sorted(names),
+                            resolved_from="instantiation" if r["inst"] is not None else "pattern"))
+        return out
+    dtors = resolve(w.dtors)
+    noexcept_fns = resolve(w.noexcept_fns)
     ext = {}
     for fid, nm, fn in w.fcalls:
         if fid not in w.qual and nm:        # declared outside the library files
@@ -891,7 +919,7 @@ def analyse_tu(args):
         if nm not in own_simple and (nm not in ext or fn < ext[nm]):
             ext[nm] = fn
     return dict(label=label, statics=statics, dtors=dtors, mutable_records=sorted(w.mutable_records), tls=w.tls,
-                external_calls=sorted(ext.items()),
+                external_calls=sorted(ext.items()), noexcept_fns=noexcept_fns,
                 chunks=nchunks, kept=nkept, wall=round(time.time() - t0, 1))
 
 
@@ -905,7 +933,7 @@ def build_inventory(jobs=None):
     with ProcessPoolExecutor(max_workers=jobs) as ex:
         results = list(ex.map(analyse_tu, tasks))
     errors = [r for r in results if "error" in r]
-    statics, dtors = {}, {}
+    statics, dtors, nfs = {}, {}, {}
     ext = {}
     mutable = set()
     tls = set()
@@ -930,13 +958,13 @@ def build_inventory(jobs=None):
                 t["instantiations"] = max(t["instantiations"], s["instantiations"])
                 if t["init"] in ("dependent",) and s["init"] != "dependent":
                     t["init"] = s["init"]
-        for d in r["dtors"]:
+        for table, d in [(dtors, x) for x in r["dtors"]] + [(nfs, x) for x in r.get("noexcept_fns", [])]:
             k = d["name"]
-            if k not in dtors:
-                dtors[k] = d
+            if k not in table:
+                table[k] = d
                 d["callees"] = set(d["callees"])
             else:
-                t = dtors[k]
+                t = table[k]
                 if d["resolved_from"] == "instantiation" and t["resolved_from"] == "pattern":
                     t["callees"] = set(d["callees"]); t["resolved_from"] = "instantiation"
                 elif d["resolved_from"] == t["resolved_from"]:
@@ -958,9 +986,16 @@ def build_inventory(jobs=None):
     for k, d in dtors.items():
         d["callees"] = sorted(d["callees"])
         out_dtors.append(d)
-    out_dtors.sort(key=lambda d: (d["file"], d["line"], d["name"]))
+    out_dtors.sort(key=lambda d: d["name"])       # by name: moving code inside a file does not change the list
+    out_nfs = []
+    for k, d in nfs.items():
+        d["callees"] = sorted(d["callees"])
+        if d["callees"]:
+            out_nfs.append(d)       # only the noexcept functions that call something that may throw are listed
+    out_nfs.sort(key=lambda d: d["name"])
+    n_noexcept = len(nfs)
     return dict(repo_hash=inputs_hash(), headers=hdrs, sources=[t[0] for t in tasks[1:]], statics=out_statics,
-                dtors=out_dtors, external_calls=sorted(ext.items()), thread_local=sorted(tls), mutable_records=sorted(mutable),
+                dtors=out_dtors, noexcept_fns=out_nfs, noexcept_fn_count=n_noexcept, external_calls=sorted(ext.items()), thread_local=sorted(tls), mutable_records=sorted(mutable),
                 errors=[dict(label=e["label"], error=e["error"]) for e in errors],
                 timing={r["label"]: r.get("wall") for r in results})
 
@@ -1018,6 +1053,15 @@ def emit_coq(inv):
     for d in inv["dtors"]:
         items.append("{| dt_name := %s;\n     dt_file := %s;\n     dt_noexcept_false := %s;\n     dt_callees := %s |}" % (
             coq_string(d["name"]), coq_string(d["file"]), coq_string("yes" if d["noexcept_false"] else "no"),
+            coq_list([coq_string(c) for c in d["callees"]], 8)))
+    L.append("  " + coq_list(items, 2) + ".")
+    L.append("")
+    L.append("(* functions declared noexcept (other than destructors) whose bodies / member initialisers call possibly-throwing code; %d noexcept functions with a body were examined *)" % inv.get("noexcept_fn_count", 0))
+    L.append("Definition noexcept_fns : list dtor_record :=")
+    items = []
+    for d in inv.get("noexcept_fns", []):
+        items.append("{| dt_name := %s;\n     dt_file := %s;\n     dt_noexcept_false := %s;\n     dt_callees := %s |}" % (
+            coq_string(d["name"]), coq_string(d["file"]), coq_string("no"),
             coq_list([coq_string(c) for c in d["callees"]], 8)))
     L.append("  " + coq_list(items, 2) + ".")
     L.append("")
